@@ -1226,6 +1226,7 @@ func collectRawHTML(parent *Inline, r *inlineByteReader, end int) {
 
 func collectTextNodes(parent *Inline, r *inlineByteReader, end int, textKind InlineKind, escapes bool) {
 	plainStart := r.pos
+collect:
 	for r.pos < end {
 		curr := r.currentNode()
 		if curr.Kind() == IndentKind {
@@ -1250,7 +1251,12 @@ func collectTextNodes(parent *Inline, r *inlineByteReader, end int, textKind Inl
 		if escapes && curr.Kind() == UnparsedKind {
 			switch r.current() {
 			case '\\':
-				if r.next() && r.pos < end && isASCIIPunctuation(r.current()) {
+				if !r.next() || r.pos >= end {
+					// A trailing backslash is literal.
+					// Don't advance past the end of the text.
+					break collect
+				}
+				if isASCIIPunctuation(r.current()) {
 					if r.prevPos > plainStart {
 						parent.children = append(parent.children, &Inline{
 							kind: textKind,
